@@ -22,11 +22,15 @@ VERIF = os.path.dirname(os.path.dirname(os.path.abspath(__file__)))
 REPO = os.environ.get("VERIF_REPO", "/repo")
 SYM_PY = os.path.join(VERIF, ".venv", "bin", "python")
 REAL_PY = os.environ.get("VERIF_REAL_PY", "/venv/bin/python")
+# evidence/ and replays/ land here; runs against a scratch copy (VERIF_REPO) must set it so that
+# the evidence of /repo is never overwritten by them
+OUT_DIR = os.environ.get("VERIF_OUT", VERIF)
 
 COMMON_ASSUMPTIONS = [
     "engine: CrossHair 0.0.110 core (tracer + proxies) with z3 as the only solver; its models of str/list/dict are trusted for 'holds'",
     "strings exclude lone surrogates (U+D800-DFFF) unless an obligation states an alphabet",
-    "uuid.uuid4 replaced by a per-path counter (fresh canonical ids); print/warnings.warn are recorders",
+    "uuid.uuid4 replaced by a per-path counter (fresh canonical ids); print/warnings.warn are recorders; "
+    "odml.terminology.load/deferred_load replaced by a stub without thread, network or cache (a repository/include URL cannot be fetched unless an obligation provides the document)",
     "formatting at message-only source lines of /repo/odml (raise/print/warn text) is abstracted to the template",
     "a verdict is given only when every obligation's path tree is exhausted with zero unknown paths; every counterexample is replayed on the real code (real csv/lxml/uuid/files) before it is reported",
 ]
@@ -54,26 +58,54 @@ def run_worker(prop, ob, shard, tier, seed, twin, tmpdir):
     scale = float(os.environ.get("VERIF_BUDGET_SCALE", "1"))
     limit = (60 if twin else ob.budget_s(tier) * scale * 1.25 + 90)
     t0 = time.time()
-    try:
-        proc = subprocess.run(cmd, cwd=VERIF, env=_env(), stdout=subprocess.PIPE,
-                              stderr=subprocess.STDOUT, timeout=limit)
-        log = proc.stdout.decode("utf-8", "replace")
-        rc = proc.returncode
-    except subprocess.TimeoutExpired as exc:
-        log = (exc.stdout or b"").decode("utf-8", "replace")
-        rc = -9
+    if _EARLY["stop"]:
+        return _empty_result(prop, ob, shard, twin, "skipped: a violation was already found (VERIF_STOP_EARLY)")
+    logpath = out + ".log"
+    with open(logpath, "wb") as logf:
+        proc = subprocess.Popen(cmd, cwd=VERIF, env=_env(), stdout=logf, stderr=subprocess.STDOUT)
+        _EARLY["procs"].add(proc)
+        try:
+            rc = proc.wait(timeout=limit)
+        except subprocess.TimeoutExpired:
+            proc.kill()
+            proc.wait()
+            rc = -9
+        finally:
+            _EARLY["procs"].discard(proc)
+    with open(logpath, "rb") as logf:
+        log = logf.read().decode("utf-8", "replace")
     res = None
     if os.path.exists(out):
         with open(out) as fobj:
             res = json.load(fobj)
     if res is None:
-        res = {"property": prop, "obligation": ob.name, "shard": shard, "twin": twin,
-               "harness_error": "worker produced no result (rc=%s): %s" % (rc, log[-1500:]),
-               "paths": 0, "confirmed": 0, "ignored": 0, "unknown": 0, "exhausted": False,
-               "labels": {}, "violation": None, "samples": [], "functions": [],
-               "solver_queries": 0, "solver_s": 0.0, "realizations": 0, "timed_out": rc == -9}
+        why = "stopped early" if _EARLY["stop"] else "worker produced no result (rc=%s): %s" % (rc, log[-1500:])
+        res = _empty_result(prop, ob, shard, twin, why)
+        res["timed_out"] = rc == -9
     res["worker_wall_s"] = round(time.time() - t0, 2)
+    if _EARLY["enabled"] and not twin and res.get("violation") and res["violation"].get("is_violation"):
+        # mutant evaluation mode: one replayed violation is enough, stop the remaining shards
+        path = write_replay(prop, ob.name, res["violation"], tier)
+        rc2, _text = replay_file(path)
+        if rc2 == 1:
+            _EARLY["stop"] = True
+            for other in list(_EARLY["procs"]):
+                try:
+                    other.kill()
+                except OSError:
+                    pass
     return res
+
+
+_EARLY = {"enabled": bool(os.environ.get("VERIF_STOP_EARLY")), "stop": False, "procs": set()}
+
+
+def _empty_result(prop, ob, shard, twin, why):
+    return {"property": prop, "obligation": ob.name, "shard": shard, "twin": twin,
+            "harness_error": None if _EARLY["stop"] else why, "skipped": why,
+            "paths": 0, "confirmed": 0, "ignored": 0, "unknown": 0, "exhausted": False,
+            "labels": {}, "violation": None, "samples": [], "functions": [],
+            "solver_queries": 0, "solver_s": 0.0, "realizations": 0, "timed_out": False}
 
 
 def replay_file(path, ignore_findings=False):
@@ -91,7 +123,7 @@ def write_replay(prop, ob_name, rec, tier):
             "vars": rec["vars"], "engine_exception": rec.get("exception"),
             "engine_labels": rec.get("labels")}
     digest = hashlib.sha1(json.dumps([body["vars"], body["shard"]], sort_keys=True).encode()).hexdigest()[:10]
-    rdir = os.path.join(VERIF, "replays", prop)
+    rdir = os.path.join(OUT_DIR, "replays", prop)
     os.makedirs(rdir, exist_ok=True)
     path = os.path.join(rdir, "%s-%s.json" % (ob_name, digest))
     with open(path, "w") as fobj:
@@ -274,7 +306,7 @@ def check(prop, tier, seed, only=None, jobs=None):
         "wall_s": wall,
         "violations": len(violations),
     }
-    edir = os.path.join(VERIF, "evidence")
+    edir = os.path.join(OUT_DIR, "evidence")
     os.makedirs(edir, exist_ok=True)
     with open(os.path.join(edir, "%s.json" % prop), "w") as fobj:
         json.dump(evidence, fobj, indent=1, sort_keys=True)
